@@ -6,5 +6,6 @@
 //@verify duration.format_float
 //@verify duration.format_int
 //@verify duration.format_duration
+//@extras
 } // verus!
 fn main() {}
